@@ -1406,7 +1406,7 @@ fn signature(h: &History, f: &Found) -> String {
 
 pub fn run_shard(ctx: &ShardCtx, rep: &mut Report) {
     let total: u64 = match ctx.tier {
-        Tier::Quick => ctx.scaled(6000) as u64,
+        Tier::Quick => ctx.scaled(20000) as u64,
         Tier::Thorough => ctx.scaled(1_500_000) as u64,
     };
     let mut minimised: std::collections::BTreeSet<String> = Default::default();
